@@ -1,18 +1,52 @@
-use qv_core::sim::*;
-use std::io::Write;
+//! qv: run scripts against the real quinn-proto and write traces
+//!
+//! qv run <scripts.ndjson> <out.ndjson> [--probe N] [--first-run K]
+use std::io::{BufRead, BufWriter, Write};
+
+use qv_core::script::Runner;
 
 fn main() {
     let args: Vec<String> = std::env::args().collect();
-    let cfg: Cfg = serde_json::from_str(args.get(1).map(|s| s.as_str()).unwrap_or("{}")).unwrap();
-    let mut w = World::new(cfg, 0);
-    w.probe_level = 2;
-    let c = w.connect(1).unwrap();
-    w.after_input(1, c);
-    w.run_for(1_000_000);
-    w.finish();
-    let out = std::io::stdout();
-    let mut o = out.lock();
-    for l in &w.trace {
-        writeln!(o, "{}", l).unwrap();
+    match args.get(1).map(|s| s.as_str()) {
+        Some("run") => {
+            let inp = std::fs::File::open(&args[2]).expect("scripts file");
+            let out = std::fs::File::create(&args[3]).expect("out file");
+            let mut out = BufWriter::new(out);
+            let mut probe = 1u8;
+            let mut first = 0u64;
+            let mut i = 4;
+            while i < args.len() {
+                match args[i].as_str() {
+                    "--probe" => {
+                        probe = args[i + 1].parse().unwrap();
+                        i += 1;
+                    }
+                    "--first-run" => {
+                        first = args[i + 1].parse().unwrap();
+                        i += 1;
+                    }
+                    _ => {}
+                }
+                i += 1;
+            }
+            std::panic::set_hook(Box::new(|_| {}));
+            let mut run = first;
+            for line in std::io::BufReader::new(inp).lines() {
+                let line = line.unwrap();
+                if line.trim().is_empty() {
+                    continue;
+                }
+                let script: serde_json::Value = serde_json::from_str(&line).expect("script json");
+                let trace = Runner::run_script(&script, run, probe);
+                for l in &trace {
+                    writeln!(out, "{}", l).unwrap();
+                }
+                run += 1;
+            }
+        }
+        _ => {
+            eprintln!("usage: qv run <scripts.ndjson> <out.ndjson> [--probe N] [--first-run K]");
+            std::process::exit(2);
+        }
     }
 }
